@@ -8,10 +8,10 @@ BINOPS = ['+', '-', '*', '/', '%', '<<', '>>', '&', '|', '^', '<', '>', '<=', '>
 ASSIGN = ['=', '+=', '-=', '*=', '/=', '%=', '<<=', '>>=', '&=', '|=', '^=']
 UNOPS = ['-', '+', '~', '!', '*', '&', '++', '--', 'sizeof ', '(int)', '(double)', '(void *)', '(_Bool)', '(char)', '(unsigned long)', '(float)', '(void)', '(struct S)']
 PRE = '''struct S { int a; char b[3]; double d; unsigned bf : 3; }; union U { int i; float f; }; enum E { E0, E1 = 5 };
-int gi; unsigned gu; long gl; double gd; float gf; char gc; _Bool gb; int *gp; char *gs; void *gv; struct S gS; union U gU; enum E ge; int ga[4]; int gf0(void); int gf2(int, double); int gfv(int, ...); int gfz(...); void gvoid(void); int (*gfp)(void);
+int gi; unsigned gu; long gl; double gd; float gf; char gc; _Bool gb; int *gp; char *gs; void *gv; struct S gS; union U gU; enum E ge; int ga[4]; int gf0(void); int gf2(int, double); int gfv(int, ...); int gfz(...); void gvoid(void); _Noreturn void gdie(int); int (*gfp)(void);
 '''
 OPERANDS = ['gi', 'gu', 'gl', 'gd', 'gf', 'gc', 'gb', 'gp', 'gs', 'gv', 'gS', 'gU', 'ge', 'ga', 'gf0', 'gfp', 'gS.bf', 'gS.b', 'gS.d', 'gU.f', '*gp', 'ga[1]', '1', '0', '1.5', '2.5f', "'c'", '"str"', '1u', '1L', '0x7fffffff',
-            'gf0()', 'gf2(1, 2)', 'gfv(1, 2, 3.0)', 'gfv(1)', 'gfz()', 'gfz(2.5, gS)', 'gfz(gi)', 'gvoid()', '(gi ? gp : 0)', '&gi', '&ga', '&gS', 'gS.a', 'E1', 'sizeof gS', '(void *)0', 'nullptr', 'true', '-1', 'gp[1]', '&ga[2]', 'gfp()', '*gs']
+            'gf0()', 'gf2(1, 2)', 'gfv(1, 2, 3.0)', 'gfv(1)', '(gdie(1), 0)', '(gi || (gdie(2), 0))', '(gi && (gdie(3), 1))', '(gi ? (gdie(4), 0) : 1)', 'gfz()', 'gfz(2.5, gS)', 'gfz(gi)', 'gvoid()', '(gi ? gp : 0)', '&gi', '&ga', '&gS', 'gS.a', 'E1', 'sizeof gS', '(void *)0', 'nullptr', 'true', '-1', 'gp[1]', '&ga[2]', 'gfp()', '*gs']
 
 
 def expr(r, d=2):
@@ -93,5 +93,9 @@ def generate(r):
         rt = r.choice(['int', 'void', 'long', 'double', 'struct S', 'char', '_Bool', 'float', 'int *', 'unsigned long'])
         params = r.choice(['void', 'int a', 'int a, double b', 'struct S s', 'int a, ...', 'char c, float f, long l', ''])
         body = ' '.join(stmt(r, 3, labels) for _ in range(r.randrange(0, 6)))
-        out.append('%s f%d(%s) { %s }' % (rt, f, params, body))
+        spec = r.choice(['', '', '', 'inline ', 'static inline ', 'extern inline ', 'static ', '_Noreturn '])
+        out.append('%s%s f%d(%s) { %s }' % (spec, rt, f, params, body))
+        if spec and r.random() < 0.6:
+            # a later declaration may turn an inline definition into an external one
+            out.append('%s%s f%d(%s);' % (r.choice(['', 'extern ', 'inline ', 'static ']), rt, f, params))
     return '\n'.join(out) + '\n'
